@@ -5,7 +5,7 @@ from sa import cfg as C
 from sa import paths as P
 from . import common as K
 
-CONFIGS_QUICK = ["A", "D"]
+CONFIGS_QUICK = ["A", "D", "E"]
 CONFIGS_THOROUGH = ["A", "B", "C", "D", "E"]
 
 EXPLANATION = (
